@@ -678,6 +678,22 @@ func (c *SpecCtx) call(e *ast.CallExpr) *Val {
 				}
 			}
 			c.fail("unknown type %q in typeis", name)
+		case "fileByte", "fileSize":
+			// ghost file contents (see filemodels.go); the file is given by identity: ref(f) or f
+			fv := c.eval(e.Args[0])
+			var ref *Term
+			if fv.K == kScalar && fv.T.sort == SInt {
+				ref = fv.T
+			} else {
+				ref = refOf(fv)
+			}
+			if ref == nil {
+				c.fail("%s: first argument must identify a file", id.Name)
+			}
+			if id.Name == "fileSize" {
+				return intV(x.fileSize(c.st, c.heap, ref))
+			}
+			return intV(Select(x.fileContent(c.st, c.heap, ref), c.eval(e.Args[1]).T))
 		case "str":
 			// str(b): the string made of the bytes of slice b (what string(b) computes)
 			v := c.deref(c.eval(e.Args[0]))
